@@ -2,7 +2,7 @@
 import re
 from . import core
 
-SIGS = [10, 12, 14, 15, 34]
+SIGS = [10, 12, 14, 15, 34, 63, 64]
 
 
 def gen_batches(rng):
